@@ -164,6 +164,11 @@ def run(chk, drv):
             seq = [rng.choice(items) for _ in range(6)]
             if i % 3 == 0:
                 seq[3] = seq[0]            # same file again after others
+            if i % 2 == 0:
+                # ... and once through one parser object asked twice ('<mode>2': the second answer is what is compared)
+                k = rng.randrange(6)
+                m, pth = seq[k].split('=', 1)
+                seq[k] = '%s2=%s' % (m, pth)
             seqs.append(seq)
         # directed: every failing parse (both modes) followed by every other file (both modes); siblings in both orders
         good = [p for p in pool if p not in failing]
@@ -179,7 +184,7 @@ def run(chk, drv):
             chk.count(tuple(seq), nontrivial=len(files) >= 2, sample={'sequence': [os.path.basename(s) for s in seq]} if len(chk.cov['samples']) < 2 else None)
             chk.dist('sequences')
             for pos, (item, rec) in enumerate(zip(seq, recs)):
-                want = fresh[item][0]
+                want = fresh[item.replace('2=', '=', 1) if item.split('=', 1)[0].endswith('2') else item][0]
                 if key_of(rec) != key_of(want):
                     what = 'digest' if rec.get('digest') != want.get('digest') else 'registry / outcome'
                     chk.report('parse #%d of a sequence (%s) differs from its fresh-process result (%s)' % (pos + 1, os.path.basename(item), what),
